@@ -864,9 +864,14 @@ def pull_encrypted_extensions(buf: Buffer) -> EncryptedExtensions:
             extension_type = buf.pull_uint16()
             with pull_block(buf, 2) as extension_length:
                 if extension_type == ExtensionType.ALPN:
-                    extensions.alpn_protocol = pull_list(
+                    alpn_protocols = pull_list(
                         buf, 2, partial(pull_alpn_protocol, buf)
-                    )[0]
+                    )
+                    if not alpn_protocols:
+                        raise AlertDecodeError(
+                            "EncryptedExtensions has no usable ALPN protocol"
+                        )
+                    extensions.alpn_protocol = alpn_protocols[0]
                 elif extension_type == ExtensionType.EARLY_DATA:
                     extensions.early_data = True
                 else:
